@@ -12,7 +12,18 @@
 //! * bounded search: every action-block body of at most 3 (thorough tier: 4) tokens over a 12-token alphabet (`f(` and `);` are single tokens, so three
 //!   tokens reach `f(` X `);` and `)(` `f(` `);`; one text costs ~1.3 ms: every extractor compiles its regular expression per call), in on-success /
 //!   on-failure / on-missing position of a well-formed query, through parse and parse_queries.
+//!
+//! Second half — the goal-pattern reader of the backward search (src/backward/search.rs parse_goal_pattern / parse_value_string, two
+//! copies: depth-first and breadth-first / iterative).  `BackwardEngine::query(text)` parses the text (QueryParser -> ExpressionParser)
+//! and then hands the WHOLE text to the search, which re-reads it with find(operator) and strips quotes with `s[1..s.len() - 1]`
+//! behind starts_with(q) && ends_with(q) — true of the one-character text `"`.  Before the fix commit `A != "=="` (a valid query: the
+//! field A differs from the string `==`) panicked: the reader finds `==` inside the literal and is left with the value text `"`.
+//! Reference (statement): for every text the query returns a value or an error.
+//! * recorded: the panicking texts and neighbours, under the three search strategies.
+//! * bounded search: every text of at most 5 (thorough: 6) tokens over a 10-token alphabet, three strategies.
 use rust_rule_engine::backward::grl_query::{GRLQuery, GRLQueryParser, QueryAction};
+use rust_rule_engine::backward::{BackwardConfig, BackwardEngine, SearchStrategy};
+use rust_rule_engine::{Facts, KnowledgeBase, Value};
 
 const TOKENS: [&str; 12] = ["f(", ");", "(", ")", ";", " ", "é", "\"", "x=", ")(", "\n", "_"];
 
@@ -124,8 +135,73 @@ fn c05_query_action_calls_search() -> (bool, String) {
     })
 }
 
+fn strategies() -> [SearchStrategy; 3] {
+    [SearchStrategy::DepthFirst, SearchStrategy::BreadthFirst, SearchStrategy::Iterative]
+}
+
+/// None = returned; Some(description) = panicked
+fn query_panics(text: &str) -> Option<String> {
+    for strategy in strategies() {
+        let t = text.to_string();
+        let st = strategy.clone();
+        let r = quiet(move || {
+            let config = BackwardConfig { strategy: st, enable_memoization: false, ..BackwardConfig::default() };
+            let mut engine = BackwardEngine::with_config(KnowledgeBase::new("kb"), config);
+            let mut facts = Facts::new();
+            facts.set("A", Value::String("x".to_string()));
+            let _ = engine.query(&t, &mut facts);
+        });
+        if r.is_err() {
+            return Some(format!("BackwardEngine::query({:?}) panicked (strategy {:?}; facts A = \"x\", empty knowledge base); expected Ok(..) or Err(..)", text, strategy));
+        }
+    }
+    None
+}
+
+fn c05_backward_query_goal_pattern_recorded() -> (bool, String) {
+    with_silent_panics(|| {
+        let texts = [
+            "A != \"==\"", "A != \" == \"", "A == \">=\"", "A != \"<=\"", "A == \"!=\"", "A == \"a\" && A != \"==\"", "A == \"\"",
+            "A == \"é\"", "A == \"==é\"", "A != \"é==\"", "A == \" contains \"", "NOT A == \"==\"", "A == 'x'", "A == \"'\"",
+        ];
+        for t in texts {
+            if let Some(v) = query_panics(t) {
+                return (true, v);
+            }
+        }
+        (false, format!("{} recorded query texts x 3 strategies returned", texts.len()))
+    })
+}
+
+const QTOKENS: [&str; 10] = ["A", " ", "==", "!=", "\"", "'", ">=", "é", " contains ", "&&"];
+
+fn c05_backward_query_goal_pattern_search() -> (bool, String) {
+    with_silent_panics(|| {
+        let max_len = if std::env::var("VERIF_TIER").map(|t| t == "thorough").unwrap_or(false) { 6 } else { 5 };
+        let n = QTOKENS.len() as u64;
+        let mut tried = 0u64;
+        for len in 1..=max_len {
+            for c in 0..n.pow(len as u32) {
+                let mut s = String::new();
+                let mut d = c;
+                for _ in 0..len {
+                    s.push_str(QTOKENS[(d % n) as usize]);
+                    d /= n;
+                }
+                tried += 1;
+                if let Some(v) = query_panics(&s) {
+                    return (true, v);
+                }
+            }
+        }
+        (false, format!("{} query texts of <= {} tokens over {:?} x 3 strategies: no panic", tried, max_len, QTOKENS))
+    })
+}
+
 pub fn witnesses() -> Vec<crate::W> {
     vec![
+        ("c05_backward_query_goal_pattern_recorded", c05_backward_query_goal_pattern_recorded),
+        ("c05_backward_query_goal_pattern_search", c05_backward_query_goal_pattern_search),
         ("c05_query_action_calls_recorded", c05_query_action_calls_recorded),
         ("c05_query_action_calls_search", c05_query_action_calls_search),
     ]
